@@ -488,6 +488,17 @@ def _canonical_statements(tree: ast.AST):
                                 out.append(ast.copy_location(ast.Assign(targets=[st.targets[0]], value=ast.copy_location(comp, nxt)), st))
                                 i += 2
                                 continue
+                        # a, b = x, y   ->  a = x ; b = y     (plain names on both sides, no target read on the right: no swap)
+                        if isinstance(st, ast.Assign) and len(st.targets) == 1 and isinstance(st.targets[0], ast.Tuple) and \
+                                isinstance(st.value, ast.Tuple) and len(st.targets[0].elts) == len(st.value.elts) and \
+                                all(isinstance(t, ast.Name) for t in st.targets[0].elts) and \
+                                all(isinstance(v, (ast.Name, ast.Constant)) for v in st.value.elts) and \
+                                not ({t.id for t in st.targets[0].elts} & {v.id for v in st.value.elts if isinstance(v, ast.Name)}) and \
+                                len({t.id for t in st.targets[0].elts}) == len(st.targets[0].elts):
+                            for t, v in zip(st.targets[0].elts, st.value.elts):
+                                out.append(ast.copy_location(ast.Assign(targets=[t], value=v), st))
+                            i += 1
+                            continue
                         # x = x  (left behind by inlining)
                         if isinstance(st, ast.Assign) and len(st.targets) == 1 and isinstance(st.targets[0], ast.Name) and \
                                 isinstance(st.value, ast.Name) and st.value.id == st.targets[0].id:
@@ -527,6 +538,79 @@ def _canonical_statements(tree: ast.AST):
     ast.fix_missing_locations(tree)
 
 
+def _eliminate_aliases(tree: ast.AST):
+    """`a = b` between two plain locals that are each bound exactly once, with b's binding outside any loop (or in the same block as the
+    alias): a and b always hold the same value wherever a is defined, so a is replaced by b and the assignment dropped."""
+    for fn in [n for n in ast.walk(tree) if isinstance(n, (ast.FunctionDef, ast.AsyncFunctionDef))]:
+        a_ = fn.args
+        params = {x.arg for x in a_.args + a_.kwonlyargs + a_.posonlyargs} | ({a_.vararg.arg} if a_.vararg else set()) | ({a_.kwarg.arg} if a_.kwarg else set())
+        for _round in range(4):
+            stores: Dict[str, int] = {}
+            nested_names = set()
+            for n in ast.walk(fn):
+                if n is not fn and isinstance(n, (ast.FunctionDef, ast.AsyncFunctionDef, ast.Lambda, ast.ClassDef)):
+                    nested_names |= _names_in(n)
+                if isinstance(n, ast.Name) and isinstance(n.ctx, (ast.Store, ast.Del)):
+                    stores[n.id] = stores.get(n.id, 0) + 1
+                elif isinstance(n, (ast.Global, ast.Nonlocal)):
+                    for nm in n.names:
+                        stores[nm] = 99
+                elif isinstance(n, ast.ExceptHandler) and n.name:
+                    stores[n.name] = stores.get(n.name, 0) + 1
+                elif isinstance(n, (ast.Import, ast.ImportFrom)):
+                    for al in n.names:
+                        nm = (al.asname or al.name).split(".")[0]
+                        stores[nm] = stores.get(nm, 0) + 1
+            # block and loop depth of every plain `name = value` statement
+            where: Dict[str, Tuple[int, bool]] = {}      # name -> (id of block list, inside a loop)
+
+            def scan(blk, in_loop):
+                for st in blk:
+                    if isinstance(st, ast.Assign) and len(st.targets) == 1 and isinstance(st.targets[0], ast.Name):
+                        where.setdefault(st.targets[0].id, (id(blk), in_loop))
+                    if isinstance(st, (ast.FunctionDef, ast.AsyncFunctionDef, ast.ClassDef)):
+                        continue
+                    for fld in ("body", "orelse", "finalbody"):
+                        sub = getattr(st, fld, None)
+                        if isinstance(sub, list) and sub and isinstance(sub[0], ast.stmt):
+                            scan(sub, in_loop or isinstance(st, (ast.For, ast.While, ast.AsyncFor)))
+                    for h in getattr(st, "handlers", []) or []:
+                        scan(h.body, in_loop)
+            scan(fn.body, False)
+            found = None
+            for node in ast.walk(fn):
+                for fld in ("body", "orelse", "finalbody"):
+                    blk = getattr(node, fld, None)
+                    if not isinstance(blk, list) or not blk or not isinstance(blk[0], ast.stmt):
+                        continue
+                    for st in blk:
+                        if isinstance(st, ast.Assign) and len(st.targets) == 1 and isinstance(st.targets[0], ast.Name) and isinstance(st.value, ast.Name) \
+                                and getattr(st, "ann", None) is None:
+                            a, b = st.targets[0].id, st.value.id
+                            if a == b or a in params or b in params or stores.get(a) != 1 or stores.get(b) != 1 or a in nested_names or b in nested_names:
+                                continue
+                            if b not in where:
+                                continue
+                            b_blk, b_loop = where[b]
+                            if b_loop and b_blk != id(blk):
+                                continue
+                            found = (blk, st, a, b)
+                            break
+                    if found:
+                        break
+                if found:
+                    break
+            if not found:
+                break
+            blk, st, a, b = found
+            blk.remove(st)
+            if not blk:
+                blk.append(ast.copy_location(ast.Pass(), st))
+            for n in ast.walk(fn):
+                if isinstance(n, ast.Name) and n.id == a:
+                    n.id = b
+
+
 def _negate(t: ast.AST) -> ast.AST:
     if isinstance(t, ast.UnaryOp) and isinstance(t.op, ast.Not):
         return t.operand
@@ -558,6 +642,7 @@ def normalise_tree(tree: ast.AST) -> int:
     _simplify_not(tree)
     _canonical_comparisons(tree)
     _canonical_statements(tree)
+    _eliminate_aliases(tree)
     for fn in [n for n in ast.walk(tree) if isinstance(n, (ast.FunctionDef, ast.AsyncFunctionDef))]:
         for node in ast.walk(fn):
             for fld in ("body", "orelse", "finalbody"):
@@ -601,12 +686,14 @@ class Model:
                 warnings.simplefilter("ignore")
                 tree = ast.parse(src, filename=str(p))
             mname = PKG if p.stem == "__init__" else f"{PKG}.{p.stem}"
-            from .inline import inline_module_helpers
+            from .inline import drop_unreferenced_helpers, inline_module_helpers
             _canonical_receivers(tree)
             n_inl, log = inline_module_helpers(tree, mname)
             self.inlined = getattr(self, "inlined", []) + [f"{p.name}: {l}" for l in log]
-            self.inert_removed = getattr(self, "inert_removed", 0) + normalise_tree(tree)
             self.modules[mname] = Module(mname, f"{PKG}/{p.name}", src, tree)
+        self.helpers_dropped = drop_unreferenced_helpers([m.tree for m in self.modules.values()])
+        for m in self.modules.values():
+            self.inert_removed = getattr(self, "inert_removed", 0) + normalise_tree(m.tree)
         for m in self.modules.values():
             self._collect_aliases(m)
         for m in self.modules.values():
